@@ -27,6 +27,50 @@ def limits_config(ch: Choices) -> GenConfig:
     )
 
 
+def gen_contention_program(ch: Choices):
+    """
+    Targeted family: many sibling calls (distinct arguments, so no CSE) of tasks competing for
+    one or two scarce resources with capacities 1-3, unit demands 1-2, unlimited tasks that
+    *return* limited calls (fresh demand arriving between a wake-up and the restart of the woken
+    job), limited parents returning limited children, failing holders.
+    """
+    from simkit.progs import HEADER, RawProgram
+
+    cap_r = 1 + ch.choice(3, "cap-r")
+    cap_q = 1 + ch.choice(2, "cap-q")
+    L = [HEADER.format(ns="vp")]
+    L.append("@task(limits=['r'])\ndef a(x):\n    return mix('a', x)\n\n")
+    L.append(f"@task(limits={{'r': {min(2, cap_r)}}})\ndef a2(x):\n    return mix('a2', x)\n\n")
+    L.append("@task(limits=['r', 'q'])\ndef b(x):\n    return mix('b', x)\n\n")
+    L.append("@task(limits=['r'])\ndef afail(x):\n    raise ValueError('boom-%s' % x)\n\n")
+    L.append("@task()\ndef d(x):\n    return a(x + 100)\n\n")
+    L.append("@task(limits=['q'])\ndef dq(x):\n    return a(x + 200)\n\n")
+    L.append("@task(limits=['r'])\ndef da(x):\n    return a(x + 300)\n\n")
+    L.append("@task()\ndef delay(x):\n    return x\n\n")
+    names = ["a", "a", "a2", "b", "d", "dq", "da", "afail"]
+    n = 4 + ch.choice(6, "nitems")
+    items = []
+    has_fail = False
+    for i in range(n):
+        name = names[ch.choice(len(names), "item")]
+        if name == "afail":
+            if has_fail and ch.coin(0.5, "one-fail"):
+                name = "a"
+            has_fail = True
+        arg = str(i)
+        for _ in range(ch.choice(3, "delays")):
+            arg = f"delay({arg})"
+        items.append(f"{name}({arg})")
+    expr = "[" + ", ".join(items) + "]"
+    if has_fail and ch.coin(0.7, "catch-all"):
+        expr = f"catch_all({expr})"
+    L.append(f"@task()\ndef t0():\n    return {expr}\n")
+    limits = {"r": cap_r}
+    if ch.coin(0.7, "q-configured"):
+        limits["q"] = cap_q
+    return RawProgram("".join(L), limits=limits)
+
+
 class LimitMonitor:
     """Shadow accounting of resource units, independent of Scheduler.limits_used."""
 
@@ -83,16 +127,23 @@ class C08(EngineACheck):
     PROPERTY = "C08"
     RULE = (
         "generated programs with list- and dict-form limits over shared resources, failing jobs, "
-        "duplicates, cache hits (second execution on the same backend), unknown executors; seeded "
+        "duplicates, cache hits (second execution on the same backend), unknown executors, plus a "
+        "targeted contention family (4-9 sibling calls competing for capacities 1-3 with unit "
+        "demands 1-2, unlimited tasks returning limited calls, failing holders); seeded "
         "completion orders; shadow unit accounting hand-off -> report; a case is (program, limits, "
         "schedule signature); non-trivial = two jobs in flight at once"
     )
-    EXPECTED_PROBES = ["resource_saturated", "jobs_waited_for_limits", "reject_before_executor"]
+    EXPECTED_PROBES = ["resource_saturated", "jobs_waited_for_limits", "reject_before_executor",
+                       "contention_family_programs"]
     QUICK_SECONDS = 35.0
 
     def run_one(self, ch: Choices) -> RunOutcome:
         out = RunOutcome()
-        prog = Gen(ch, limits_config(ch)).generate()
+        if ch.choice(2, "program-family") == 1:
+            prog = gen_contention_program(ch)
+            out.probe("contention_family_programs")
+        else:
+            prog = Gen(ch, limits_config(ch)).generate()
         db = schedsim.fresh_db("run.db")
         executions = 1 + ch.choice(2, "executions")
         sess = enginea.ProgramSession(prog)
